@@ -251,7 +251,8 @@ def run(ctx):
         else:
             ctx.notes.append("formats harness does not build, C03 stream missing in this run")
     if ctx.tier == "thorough":
-        args = ["-cross", "-pergroup", "60", "-mutants", "800", "-synth", "600", "-maxpkgs", "8000", "-sbomdocs", "800"]
+        args = ["-cross", "-pergroup", "60", "-mutants", "800", "-synth", "600", "-maxpkgs", "8000", "-sbomdocs", "800",
+                "-metawide", "-metaper", "4", "-metasample", "400"]
     else:
         args = ["-pergroup", "12", "-mutants", "80", "-synth", "80", "-maxpkgs", "1000", "-sbomdocs", "80"]
     rc, out = vlib.sh([binp, "-repo", vlib.REPO, "-out", vfile, "-jsonl", side, "-summary", summ, "-seed", str(ctx.seed),
@@ -292,10 +293,13 @@ def run(ctx):
         cases[i]["model_disagrees_on"] = mask_names(mk, FLAG_NAMES_MODEL)
 
     # exploration part: panics of extractor-specific functions are violations with their own replay
-    for ev in (summary["panics"] or [])[:5]:
-        if ev["what"] in ("ToPURL", "Ecosystem"):
-            ctx.violation({"kind": "spec-failure", "clause": "%s panics on a package its extractor emitted" % ev["what"], "event": ev})
-    extract_panics = [e for e in (summary["panics"] or []) if e["what"] not in ("ToPURL", "Ecosystem")]
+    conv_whats = ("ToPURL", "Ecosystem", "packageindex.New", "proto.ScanResultToProto", "converter.ToSPDX23", "converter.ToCDX")
+    conv_panics = [e for e in (summary["panics"] or []) if e["what"] in conv_whats]
+    for ev in conv_panics[:5]:
+        how = " (metadata variant: %s)" % json.dumps(ev["metadata_mutation"]) if ev.get("metadata_mutation") else ""
+        ctx.violation({"kind": "spec-failure", "clause": "%s panics on a package of extractor %s%s" % (ev["what"], ev["extractor"], how),
+                       "event": ev})
+    extract_panics = [e for e in (summary["panics"] or []) if e["what"] not in conv_whats]
 
     nontriv = summary["distinct_nontrivial_packages"]
     ctx.coverage.update({
@@ -318,6 +322,7 @@ def run(ctx):
                          "binary of another extractor's testdata) is run through ToPURL/Ecosystem only and not handed to Coq",
         "c03_generator_roots_scanned": summary.get("c03_roots", 0),
         "metadata_type_to_proto_case_observed": summary.get("metadata_types"),
+        "metadata_mutation_stream": summary.get("metadata_mutation"),
         "statically_checked_only": static_only(types),
         "hypotheses_validated": {"codec_law (packageurl-go FromString . ToString = norm)": summary["packages"]},
         "extract_panics_seen (C02's subject, informational)": len(extract_panics),
